@@ -146,12 +146,22 @@ def tryLoadUnregistered (w : World) (s : St) (fpath : Str) : Except Err (St × B
   | .error .syntax => .ok (s, false)
   | .error e => .error e
 
+/-- `os.path.isfile(path)`: a regular file (an unreadable one included), through symbolic links -/
+def isRegularAt (w : World) (p : Str) : Bool :=
+  match w.obj? p with
+  | some (.file _) => true
+  | some (.fault _) => true
+  | _ => false
+
 /-- one candidate Manifest name in a scanned directory: `for m in manifest_filenames: if m in filenames: …` -/
 def scanNameStep (w : World) (rel : Str) (filenames : List Str) (acc : ScanSt) (mname : Str) : Except Err ScanSt :=
   if !filenames.contains mname then .ok acc
   else
     let fpath := pjoin rel mname
     if acc.st.loaded.any (·.1 == fpath) then .ok acc
+    -- only a regular file can be a Manifest: anything else (a named pipe, a socket, a dangling link) is left to the walk,
+    -- which reports it like any other non-regular object (repair of finding F20: opening a FIFO blocked for good)
+    else if !isRegularAt w fpath then .ok acc
     else match tryLoadUnregistered w acc.st fpath with
       | .error e => .error e
       | .ok (st', true) => .ok { acc with st := st', newManifests := acc.newManifests ++ [fpath] }
